@@ -118,6 +118,25 @@ theorem setbit_no_crash : (cmdSetBit c db k i j).crash = none := by
       split <;> exact this
 end
 
+/-! ### SORT -/
+
+theorem sortFinish_no_crash (db : Db) (store : Option Bytes) (out : List Value) (hint : Match) :
+    (sortFinish db store out hint).crash = none := by
+  unfold sortFinish
+  split
+  · rfl
+  · split_ifs <;> rfl
+theorem sort_no_crash (c : Ctx) (db : Db) (key : Bytes) (by_ : Option Bytes) (limit : Option (Int × Int))
+    (gets : List Bytes) (desc alpha : Bool) (store : Option Bytes) :
+    (cmdSort c db key by_ limit gets desc alpha store).crash = none := by
+  unfold cmdSort
+  split
+  · rfl
+  · exact sortFinish_no_crash _ _ _ _
+  · split
+    · rfl
+    · exact sortFinish_no_crash _ _ _ _
+
 /-! ### from the single commands to everything a connection can send -/
 
 
@@ -263,7 +282,7 @@ theorem runCmd_no_crash (c : Ctx) (s : State) (conn ref : Nat) (m : Bool) (cmd :
         sismember_no_crash, smismember_no_crash, smembers_no_crash, smove_no_crash, setalgebra_no_crash,
         setalgebrastore_no_crash, sintercard_no_crash, del_no_crash, exists_no_crash, type_no_crash, rename_no_crash,
         expireat_no_crash, persist_no_crash, ttl_no_crash, getbit_no_crash, bitpos_no_crash,
-        bitop_no_crash, bitfield_no_crash, setbit_no_crash, lmove_no_crash, bpop_go_no_crash]
+        bitop_no_crash, bitfield_no_crash, setbit_no_crash, lmove_no_crash, bpop_go_no_crash, sort_no_crash]
     | (no_crash; done)
 
 theorem execQueue_no_crash (conn : Nat) (q : List Queued) :
